@@ -2007,9 +2007,6 @@ Proof.
   - inversion H; subst. eapply cf_trans; [exact K|exact Hx].
 Qed.
 
-Lemma assign_groups_conf ids : forall m m', assign_groups m ids = Ok m' -> True.
-Proof. auto. Qed.
-
 Lemma assign_commit_groups_cf r ids r' : assign_commit_groups r ids = Ok r' -> cf MsgTimeoutNow r r'.
 Proof.
   intros H. unfold assign_commit_groups in H. inv_bind H.
